@@ -46,6 +46,21 @@ pub struct ArrCase {
     /// start from a (nearly) full array: every slot except these is initialized first, in the order given by `seed`
     #[serde(default)]
     pub prefill: Option<Prefill>,
+    /// applied after the prefill and before `ops`
+    #[serde(default)]
+    pub macros: Vec<Macro>,
+}
+
+/// long regular stretches of a history (random sequences of <= 120 single ops never produce them): they are what moves bytes of
+/// removed ticks through the slack behind the used part of a dynamic array's buffer
+#[derive(Clone, Debug, Serialize, Deserialize, Hash)]
+pub enum Macro {
+    /// initialize every slot not yet initialized (order from `seed`), except `skip`
+    FillAll { seed: u8, skip: Vec<i16> },
+    /// de-initialize every initialized slot (order from `seed`), except `keep`
+    DrainAll { seed: u8, keep: Vec<i16> },
+    /// initialize and de-initialize one slot `times` times
+    Cycle { slot: i16, times: u8 },
 }
 
 #[derive(Clone, Debug, Serialize, Deserialize, Hash)]
@@ -334,6 +349,45 @@ pub fn check_case(c: &ArrCase, l: &mut Local) -> Result<(), String> {
         }
         l.count(&format!("prefilled/{}_missing", pf.missing.len()));
     }
+    const STRIDES: [usize; 8] = [1, 87, 3, 5, 7, 13, 29, 43];
+    let macro_val = |slot: i16, n: u32| TickVal { net: (slot as i128 + 1) * 7_000_003 - n as i128, gross: ((slot as u128 + 1) << 90) | 0x0101_0101, fa: u128::MAX - n as u128, fb: (n as u128) << 100 | 0x0202, r: [u64::MAX, slot as u64 | 0x0100_0000_0000_0001, n as u64] };
+    let mut macro_ops = 0u32;
+    for m in &c.macros {
+        match m {
+            Macro::FillAll { seed, skip } => {
+                for k in 0..88usize {
+                    let slot = ((k * STRIDES[(*seed % 8) as usize] + *seed as usize) % 88) as i16;
+                    if skip.contains(&slot) || q.model.contains_key(&(slot as usize)) {
+                        continue;
+                    }
+                    q.apply(&ArrOp::Set { slot, skew: 0, val: macro_val(slot, macro_ops) }, l)?;
+                    macro_ops += 1;
+                }
+            }
+            Macro::DrainAll { seed, keep } => {
+                for k in 0..88usize {
+                    let slot = ((k * STRIDES[(*seed % 8) as usize] + *seed as usize) % 88) as i16;
+                    if keep.contains(&slot) || !q.model.contains_key(&(slot as usize)) {
+                        continue;
+                    }
+                    q.apply(&ArrOp::Deinit { slot, skew: 0 }, l)?;
+                    macro_ops += 1;
+                }
+            }
+            Macro::Cycle { slot, times } => {
+                let slot = slot.rem_euclid(88);
+                for _ in 0..*times {
+                    q.apply(&ArrOp::Set { slot, skew: 0, val: macro_val(slot, macro_ops) }, l)?;
+                    q.apply(&ArrOp::Deinit { slot, skew: 0 }, l)?;
+                    macro_ops += 2;
+                }
+            }
+        }
+    }
+    if macro_ops > 0 {
+        l.count_n("macro_ops", macro_ops as u64);
+        l.count(if macro_ops >= 176 { "cases_with_176+_macro_ops" } else { "cases_with_macro_ops" });
+    }
     let mut reached_full = q.model.len() == 88;
     for op in &c.ops {
         let before = q.model.clone();
@@ -398,9 +452,16 @@ fn case_strategy() -> BoxedStrategy<ArrCase> {
                 5 => Just(None),
                 1 => (prop::collection::vec(0i16..88, 0..=3), any::<u8>()).prop_map(|(missing, seed)| Some(Prefill { missing, seed })),
             ];
-            (Just(ts), prop_oneof![3 => min_no..=max_no, 2 => Just(min_no), 1 => Just(max_no), 2 => -2i32..=1], prop::collection::vec(op_strategy(), 1..=120), prefill)
+            let few = || prop::collection::vec(0i16..88, 0..=3);
+            let mac = prop_oneof![
+                2 => (any::<u8>(), few()).prop_map(|(seed, skip)| Macro::FillAll { seed, skip }),
+                2 => (any::<u8>(), few()).prop_map(|(seed, keep)| Macro::DrainAll { seed, keep }),
+                1 => (0i16..88, prop_oneof![1 => 1u8..=10, 1 => 80u8..=100]).prop_map(|(slot, times)| Macro::Cycle { slot, times }),
+            ];
+            let macros = prop_oneof![6 => Just(vec![]), 1 => prop::collection::vec(mac, 1..=4)];
+            (Just(ts), prop_oneof![3 => min_no..=max_no, 2 => Just(min_no), 1 => Just(max_no), 2 => -2i32..=1], prop::collection::vec(op_strategy(), 1..=120), prefill, macros)
         })
-        .prop_map(|(tick_spacing, array_no, ops, prefill)| ArrCase { tick_spacing, array_no, ops, prefill })
+        .prop_map(|(tick_spacing, array_no, ops, prefill, macros)| ArrCase { tick_spacing, array_no, ops, prefill, macros })
         .boxed()
 }
 
@@ -449,7 +510,7 @@ pub fn def() -> CheckDef {
                dynamic, Pinocchio fixed, Pinocchio dynamic); after every update all four buffers are decoded by the harness's own reader and compared with the map, \
                dynamic encodings must be well formed (bitmap == initialized set, 113/1 bytes per slot, used length 148+112n) and byte-equal between Anchor and \
                Pinocchio; answers and error codes must agree.  Exhaustive part: every subset of the slot set {0,1,63,64,65,86,87} as initial state x every single \
-               op on those slots, for 4 (spacing, start) configurations incl. the array straddling the minimum tick.  One random sequence in six starts from an array with all but 0..3 slots initialized (filled in ascending, descending or stride order), so the completely full array and its 10 004-byte encoding are reached.  Non-trivial random sequence = >=1 initialize \
+               op on those slots, for 4 (spacing, start) configurations incl. the array straddling the minimum tick.  One random sequence in six starts from an array with all but 0..3 slots initialized (filled in ascending, descending or stride order), so the completely full array and its 10 004-byte encoding are reached; one in seven also runs long regular stretches first (fill all, drain all, 80-100 initialize/de-initialize cycles of one slot), which move the bytes of removed ticks through the slack behind the used part of the buffer.  Non-trivial random sequence = >=1 initialize \
                and >=1 de-initialize of a slot with initialized slots on both sides.",
         assumptions: vec!["H1 re-export hook for the Pinocchio types", "buffers carry the 10 KiB slack the loaders assume; de-initializing updates are all-default (what the program produces)"],
         subs: vec![
